@@ -26,7 +26,7 @@ VARS = [
  ("notInert", "a scope requested after the root's Close had returned was not the inert scope"),
  ("gotObj", "<<kind, identity, scope object>> -> the metric object returned by first use"),
  ("objMismatch", "two requests for the same metric of the same scope object returned different objects"),
- ("allocs", "<<kind, identity>> -> number of Allocate calls on the cached reporter"),
+ ("allocs", "<<kind, identity, scope object>> -> number of Allocate calls on the cached reporter"),
  ("rootCloseCalled", "threads that have called the root's Close"),
  ("rootCloseReturned", "threads whose root Close has returned"),
  ("closePromise", "thread -> promised as it was when the thread called the root's Close"),
@@ -93,8 +93,8 @@ ACTIONS = [
  ("ObsGot", "k, id, so, obj", "first-use request for metric (kind k, identity id) on scope object so returned metric object obj",
   [("objMismatch", "(objMismatch \\/ (<<k, id, so>> \\in DOMAIN gotObj /\\ gotObj[<<k, id, so>>] # obj))"),
    ("gotObj", "Put(gotObj, <<k, id, so>>, obj)")], []),
- ("ObsAlloc", "k, id", "the cached reporter's Allocate<k> was called for identity id",
-  [("allocs", "Put(allocs, <<k, id>>, Get(allocs, <<k, id>>) + 1)")], []),
+ ("ObsAlloc", "k, id, o", "the cached reporter's Allocate<k> was called for identity id on behalf of scope object o (a scope object that has been closed is not a live scope: what it allocates is not counted)",
+  [("allocs", "IF o \\in objClosed THEN allocs ELSE Put(allocs, <<k, id, o>>, Get(allocs, <<k, id, o>>) + 1)")], []),
  ("ObsRootCloseCall", "t", "thread t calls the root's Close",
   [("rootCloseCalled", "rootCloseCalled \\cup {t}"), ("closePromise", "Put(closePromise, t, promised)")], []),
  ("ObsRootCloseReturn", "t, err, experr, loopEnded", "the root's Close returned to thread t",
@@ -178,6 +178,8 @@ InertAfterClose == ~notInert
 
 (* C09 *)
 SameObject == ~objMismatch
+(* "a cached reporter's Allocate call for it is made at most once" is said of one live scope: counted per scope
+   object (a child scope that was closed and is requested again is a new scope object, C07) *)
 AllocateOnce == \A ka \in DOMAIN allocs : allocs[ka] <= 1
 
 (* C10 *)
